@@ -415,6 +415,9 @@ def gen_project(rng, k=None):
                 d["onstart"] = False
     if pick(rng, k.p_scen):
         p["scenarios"] = [{"id": "plan", "children": [{"id": "s2", "children": [{"id": "s3"}] if pick(rng, 0.3) else []}]}]
+        if pick(rng, 0.35):
+            # a sibling of s2 (declared after it): what the parent scenario says reaches every child that says nothing itself
+            p["scenarios"][0]["children"].append({"id": "s4"})
         for fid in order:
             t = nodes[fid]
             if A.is_leaf(t) and t.get("effort") and pick(rng, 0.5):
@@ -422,6 +425,9 @@ def gen_project(rng, k=None):
                 if pick(rng, 0.25):
                     sid = "plan"        # an override addressed to the FIRST scenario (index 0): nested scenarios inherit it
                 t.setdefault("sc", {})[sid] = {"effort": gen_effort(rng, G, k)}
+                if sid != "plan" and pick(rng, 0.35):
+                    # ... and one for the parent scenario, written AFTER the child's: the other children inherit it
+                    t["sc"]["plan"] = {"effort": gen_effort(rng, G, k)}
         # scenario-specific dates, also on containers that have no plain date of their own (their children inherit them
         # in that scenario only)
         for fid in order:
